@@ -6,9 +6,10 @@ open Selium.Sink Selium.Route Driver.Fanout
 
 def parseStream (t : String) : List (SAns Nat) :=
   if t = "_" || t = "" then [] else
-  (t.splitOn ",").map fun a =>
-    if a.startsWith "i" then .item (nat! (a.drop 1).toString)
-    else if a = "x" then .err else .pending
+  (t.splitOn ",").flatMap fun a =>
+    if a.startsWith "i" && a.endsWith "*" then List.replicate 100000 (.item (nat! ((a.drop 1).toString.dropEnd 1).toString))
+    else if a.startsWith "i" then [.item (nat! (a.drop 1).toString)]
+    else if a = "x" then [.err] else [.pending]
 
 structure St where
   ps : PS Nat := {}
